@@ -584,7 +584,11 @@ class Interp:
             if s.finalbody:
                 fin: List[PathResult] = []
                 for r in results:
+                    was_raised = r.state.raised
+                    r.state.raised = False  # the finally block runs normally, the pending exception resumes after it
                     for r2 in self.exec_block(s.finalbody, r.state):
+                        if was_raised and r2.outcome == "fall":
+                            r2.state.raised = True
                         fin.append(r2 if r2.outcome != "fall" else PathResult(r2.state, r.outcome, r.value))
                 results = fin
             return results
